@@ -1,5 +1,5 @@
 """C14 - comparison, ordering, hashing and formatting see through the pointer."""
-from .. import atomics, cfg, core
+from .. import inline, atomics, cfg, core
 from ..facts import ALL_HANDLES, NONNULL, operand_place
 
 PROP = "C14"
@@ -478,9 +478,10 @@ def _self_paths_in(F, b, alias):
         changed = False
         for bl in b["blocks"]:
             for s in bl["stmts"]:
-                if s["k"] != "assign" or s["lhs"]["p"] or s["rv"]["k"] != "use":
+                if s["k"] != "assign" or s["lhs"]["p"] or s["rv"]["k"] not in ("use", "ref"):
                     continue
-                pl = operand_place(s["rv"]["op"])
+                reborrow = s["rv"]["k"] == "ref"  # `&*self` handed to a helper
+                pl = s["rv"]["place"] if reborrow else operand_place(s["rv"]["op"])
                 if pl is None or pl["l"] not in alias:
                     continue
                 d = alias[pl["l"]]
@@ -489,8 +490,9 @@ def _self_paths_in(F, b, alias):
                 while rest and rest[0] == "deref":
                     derefs += 1
                     rest = rest[1:]
-                if not rest and derefs < d and s["lhs"]["l"] not in alias:
-                    alias[s["lhs"]["l"]] = d - derefs
+                nd = d - derefs + (1 if reborrow else 0)
+                if not rest and derefs <= d and nd >= 1 and s["lhs"]["l"] not in alias:
+                    alias[s["lhs"]["l"]] = nd
                     changed = True
     for bi, bl in enumerate(b["blocks"]):
         for si, s in enumerate(bl["stmts"]):
@@ -591,7 +593,7 @@ def footprint(F, trait, method, t, depth=0):
         for it in im["items"]:
             if it["name"] == FALLBACK[method]:
                 item = it["key"]
-    b = F.body(item) if item else None
+    b = (inline.inlined(F, item) or F.body(item)) if item else None  # private key/tie-break helpers are part of the comparison
     if b is None:
         return None
     out = []
@@ -678,12 +680,27 @@ def rule_lex(ctx, rep):
             for it in im["items"]:
                 if it["name"] not in ("partial_cmp", "cmp"):
                     continue
-                b = F.body(it["key"])
+                b = inline.inlined(F, it["key"]) or F.body(it["key"])
                 if b is None:
                     continue
                 B = cfg.Body(b)
                 leaves = [(bi, t) for bi, t in B.calls() if t.get("callee_trait") in ("core::cmp::PartialOrd", "core::cmp::Ord") and t.get("callee_name") in ("partial_cmp", "cmp")]
                 ik = "%s :: %s::%s" % (st["s"], tr.split("::")[-1], it["name"])
+                # orientation: every key comparison is (something of self) against (the same thing of other), in that order - a
+                # swapped pair answers the reverse of what the other operators answer for the same two values
+                swapped = None
+                for bi, t in leaves:
+                    if len(t["args"]) != 2:
+                        continue
+                    ra = [_roots(B, pl["l"], set()) if pl is not None else set() for pl in (operand_place(a) for a in t["args"])]
+                    if 2 in ra[0] and 1 not in ra[0] and 1 in ra[1] and 2 not in ra[1]:
+                        reversed_ = any(t2.get("callee_name") == "reverse" and t["dest"]["l"] in _roots(B, operand_place(t2["args"][0])["l"], set()) for _bj, t2 in B.calls() if t2["args"] and operand_place(t2["args"][0]) is not None)
+                        if not reversed_:
+                            swapped = t
+                if swapped is not None:
+                    rep.bad("R-ORIENT", ik, "the key comparison at line %s is applied as (other, self): for two values that differ only in that key, `%s` answers the reverse of the operators defined through the other method (`<`, `partial_cmp`), so the comparisons are not mutually consistent" % (swapped["span"]["line"], it["name"]), F.loc(b, swapped["span"]), tag)
+                else:
+                    rep.ok("R-ORIENT", ik, cfg=tag, nontrivial=bool(leaves))
                 if len(leaves) <= 1:
                     rep.ok("R-LEX", ik, "single delegation (tuple / wrapped value)", cfg=tag, nontrivial=len(leaves) == 1)
                     continue
@@ -720,6 +737,7 @@ def rule_lex(ctx, rep):
                     rep.ok("R-LEX", ik, cfg=tag)
                 else:
                     rep.bad("R-LEX", ik, why, F.loc(b), tag)
+    rep.floor("R-ORIENT", 4, "the same orderings")
     rep.floor("R-LEX", 4, "derived and hand-written orderings of the header-slice types")
 
 
